@@ -52,10 +52,18 @@ def dataOf (zlog : List (ZEv × List UInt8)) : List UInt8 := (zlog.map (·.2)).f
 /-- **ZSpec** — the contract assumed of Go's compress/flate.Writer for one chunk
     (Reset; Write…; Flush): in any DEFLATE context its output is a run of
     complete non-final blocks, ending on a byte boundary, that appends exactly
-    the chunk's data to the output. `k` is the number of blocks. -/
+    the chunk's data to the output. `k` is the number of blocks.
+    -- STATEMENT ADJUSTED: the contexts are restricted to those in which the chunk
+    -- lies inside the stream (`total` is the bit length of the whole stream) and
+    -- starts on a byte boundary.  `Flate.decodeBlocks` aligns stored blocks with
+    -- `padTo8 (total - remaining)`, so the unrestricted form (all `total`) was
+    -- false for every real chunk (each ends with the stored sync marker
+    -- `00 00 ff ff`) and made C06 vacuous.  Non-vacuity witness:
+    -- `Compress.Proofs.XFlateStream.zchunkOK_syncMarker`. -/
 def ZChunkOK (bytes data : List UInt8) : Prop :=
   ∃ k, 1 ≤ k ∧ k ≤ 8 * bytes.length ∧
     ∀ (total fuel : Nat) (out : Array UInt8) (rest : Bits),
+      rest.length + 8 * bytes.length ≤ total → (total - rest.length) % 8 = 0 →
       Flate.decodeBlocks total (fuel + k) out (Bits.ofBytes bytes ++ rest) =
         Flate.decodeBlocks total fuel (out ++ data.toArray) rest
 
